@@ -331,6 +331,25 @@ func bn254Subjects(r *Rng) []*subject {
 		}
 		return out
 	}})
+	// the same decoder into a destination of the right length that already holds points (a different filling per caller): the
+	// decoded slice depends on the bytes only. The encoded slice has points at infinity in it.
+	{
+		var buf2 bytes.Buffer
+		pts2 := append([]bn254.G1Affine{}, pts[:6]...)
+		pts2[1], pts2[4] = bn254.G1Affine{}, bn254.G1Affine{}
+		bn254.NewEncoder(&buf2).Encode(pts2)
+		raw2 := buf2.Bytes()
+		subs = append(subs, &subject{name: "bn254.Decoder.G1slice.reused", shared: []any{raw2}, run: func(variant int) any {
+			out := make([]bn254.G1Affine, len(pts2))
+			for i := range out {
+				out[i] = pts[(i+variant+1)%len(pts)]
+			}
+			if e := bn254.NewDecoder(bytes.NewReader(raw2)).Decode(&out); e != nil {
+				return "error"
+			}
+			return out
+		}})
+	}
 	// polynomial helpers with a lazily built, cached Lagrange basis (global state shared by all calls)
 	for _, vals := range [][]uint64{{1, 5, 1, 9}, {7, 1, 3}, {1, 1, 1, 1, 1, 1}, {2, 3, 5, 7, 11}} {
 		v := make([]bn254fr.Element, len(vals))
